@@ -25,6 +25,10 @@ def mentions(e, name):
     return any(n.get("k") == "ref" and n.get("n") == name for n in walk(e))
 
 
+NONEMPTY_CLASSES = ["And", "Or", "Xor", "Piecewise", "Union", "FiniteSet",
+                    "Derivative"]
+
+
 def run(loader, R, tier):
     prog = loader()
     R.explanation = (
@@ -292,8 +296,7 @@ def run(loader, R, tier):
     # Mul, Add, Subs and FunctionSymbol tolerate empty containers)
     R.rule("R20.12", "loaders reject an empty operand container for the "
                      "node classes that cannot be empty")
-    NONEMPTY = ["And", "Or", "Xor", "Piecewise", "Union", "FiniteSet",
-                "Derivative"]
+    NONEMPTY = NONEMPTY_CLASSES
     lbs = {}
     for f in prog.functions.values():
         if f["n"] == "load_basic" and f.get("body") \
